@@ -18,6 +18,8 @@ func main() {
 	switch os.Args[1] {
 	case "store":
 		os.Exit(vstore.Main(os.Args[2:]))
+	case "fieldmap":
+		os.Exit(vcodec.FieldMapMain(os.Args[2:]))
 	case "framer":
 		os.Exit(vcodec.FramerMain(os.Args[2:]))
 	case "values":
